@@ -90,7 +90,9 @@ func C10(c *fw.Ctx) {
 		"oracle: equal ToJson and equal directive tree after expansion (phase hook). Part B: ALL PASTE graphs on <= 3 macros (each macro pastes any "+
 		"subset, 512 graphs) and seeded graphs on 4 macros, each unused, pasted from a method and pasted through another macro; PASTE of an "+
 		"undefined macro at the root, in a method and in a macro body; oracle: a macro that reaches itself is rejected with the recursion error "+
-		"(never expanded, never a crash), an undefined macro with the not-found error, acyclic graphs are accepted; distinct = distinct projects; "+
+		"(never expanded, never a crash), an undefined macro with the not-found error, acyclic graphs are accepted. Part C: seeded flat documents "+
+		"(implicit contexts only) in which ANY contiguous range of directives - also one that ends a resource and begins the next, so that the "+
+		"pasted body climbs out of the directive that holds the PASTE - becomes a (nested) macro; same oracle as part A; distinct = distinct projects; "+
 		"non-trivial = every case", nPairs))
 	pool := c.Pool(false, 0)
 	type pair struct {
@@ -202,6 +204,24 @@ func C10(c *fw.Ctx) {
 				emit(j1)
 				emit(j2)
 			}
+		}
+		// part C: macro bodies that are not runs of siblings (see c10free.go)
+		fr := gen.Rng(c.Seed, c.ID, "free")
+		for i := 0; i < c.Pick(3000, 100000); i++ {
+			plain, macro, nm, ok := freePair(fr)
+			if !ok {
+				continue
+			}
+			id := fmt.Sprintf("free-%d", i)
+			maxMuLock.Lock()
+			pairs[id] = &pair{files: map[string][]byte{"root.jst": []byte(macro)}, layout: map[string]string{"family": "free-form macro bodies", "macros": fmt.Sprint(nm), "in-place form": plain}}
+			maxMuLock.Unlock()
+			j1 := singleJob("plain/"+id, []byte(plain), false)
+			j1.Ops, j1.WantPhases = []string{"json"}, true
+			j2 := singleJob("macro/"+id, []byte(macro), false)
+			j2.Ops, j2.WantPhases = []string{"json"}, true
+			emit(j1)
+			emit(j2)
 		}
 		// part B: graphs
 		emitGraph := func(id string, n int, edges [][]int) {
@@ -326,6 +346,12 @@ func C10(c *fw.Ctx) {
 		}
 		c.Count(jobKey(&proto.Job{Root: "root.jst", Files: p.files}), true)
 		c.Inc("part_a", "pairs", 1)
+		if strings.HasPrefix(id, "free-") {
+			c.Inc("part_c", "pairs", 1)
+			if p.plain.Accepted {
+				c.Inc("part_c", "in-place-form-accepted", 1)
+			}
+		}
 		rp := &fw.Replay{Jobs: []*proto.Job{{ID: "macro-form", Root: "root.jst", Files: p.files, Ops: []string{"json"}}}, Results: []interface{}{p.plain, p.macro},
 			Expected: map[string]interface{}{"files": filesAsStrings(p.files), "layout": p.layout}}
 		for _, r := range []*proto.Result{p.plain, p.macro} {
